@@ -276,13 +276,9 @@ func (c *Ctx) checkIgnoreTests(r *fnRef, _ bool) {
 			}
 		})
 	}
-	if nW < 2 {
-		L.Bad("ignore-test", r.label, "both cases of the wildcard are tested", c.P.Pos(fn.Pos()), fmt.Sprintf("%d comparison(s) with the wildcard found, want the upper- and the lower-case one", nW))
-	}
-	if nG < 1 {
-		L.Bad("ignore-test", r.label, "gap test present", c.P.Pos(fn.Pos()), "no comparison of a residue with GAP under ignoreGaps")
-	}
+	const obligation = "a residue is counted exactly when it is not ignored"
 	if nW < 2 || nG < 1 || first == nil {
+		L.Bad("ignore-test", r.label, obligation, c.P.Pos(fn.Pos()), fmt.Sprintf("%d comparison(s) of a residue with the wildcard (want the upper- and the lower-case one) and %d with GAP found in this function", nW, nG))
 		return
 	}
 	lp := innermostLoopOf(naturalLoops(fn), first.Block())
@@ -374,7 +370,7 @@ func (c *Ctx) checkIgnoreTests(r *fnRef, _ bool) {
 			best, bestMiss = example, miss
 		}
 	}
-	L.Check(found, "ignore-test", r.label, "a residue is counted exactly when it is not ignored", c.P.Pos(first.Pos()),
+	L.Check(found, "ignore-test", r.label, obligation, c.P.Pos(first.Pos()),
 		"some block of the residue loop is reached exactly when not((ignoreGaps and residue == GAP) or (ignoreNs and residue is the wildcard in either case)), for all 16 combinations",
 		"no block of the residue loop is reached exactly when the residue is not ignored; closest block: "+best)
 }
